@@ -14,7 +14,7 @@ Definition frame_ok : bool :=
 Definition is_nil {A} (l : list A) : bool := match l with [] => true | _ => false end.
 
 Definition summary_ok : bool :=
-  forallb fn_writes_ok fn_effects && is_nil alias_writes && is_nil getter_mutations.
+  forallb fn_writes_ok fn_effects && is_nil alias_writes && is_nil getter_mutations && is_nil hidden_state.
 
 (* configurations whose program the def-use scan rejects, with the offending (function, key) *)
 Definition stale_cfgs : list (cfg * string * key) :=
